@@ -48,7 +48,7 @@ def gen_actions(rng, allow_raise=True):
         elif k < 0.64:
             acts.append(('write', rng.choice(TEXTS)))
         elif k < 0.7:
-            acts.append(('writelines', [rng.choice(TEXTS) for _ in range(rng.randint(0, 3))]))
+            acts.append((rng.choice(['writelines', 'writelines', 'writelines-gen']), [rng.choice(TEXTS) for _ in range(rng.randint(0, 3))]))
         elif k < 0.92:
             acts.append(('input', rng.choice(PROMPTS), rng.random() < 0.7))
         else:
@@ -77,6 +77,10 @@ def actions_to_code(acts, ind=''):
         elif a[0] == 'writelines':
             lines.append('import sys')
             lines.append('sys.stdout.writelines(%r)' % (list(a[1]),))
+        elif a[0] == 'writelines-gen':
+            # any iterable of strings is accepted by writelines; a generator can be walked only once
+            lines.append('import sys')
+            lines.append('sys.stdout.writelines(_t for _t in %r)' % (list(a[1]),))
         elif a[0] == 'print-file-stdout':
             lines.append('import sys')
             lines.append('print(%r, file=sys.stdout)' % a[1])
@@ -106,7 +110,7 @@ def simulate(acts, queue):
             out.append(str(a[1]) + '\n')
         elif a[0] == 'write':
             out.append(a[1])
-        elif a[0] == 'writelines':
+        elif a[0] in ('writelines', 'writelines-gen'):
             out.append(''.join(a[1]))
         elif a[0] == 'print-file-stdout':
             out.append(a[1] + '\n')
@@ -204,8 +208,12 @@ def gen_history(rng):
                 ops.append(('set_input', vals, rng.random() < 0.7))
         elif r < 0.8:
             ops.append(('queue_input', [rng.choice(INPUT_VALUES) for _ in range(rng.randint(1, 3))]))
-        elif r < 0.85:
+        elif r < 0.83:
             ops.append(('clear_input',))
+        elif r < 0.84:
+            ops.append(('set_input-own-queue',))
+        elif r < 0.85:
+            ops.append(('callable-then-queue', [rng.choice(INPUT_VALUES) for _ in range(rng.randint(0, 3))], rng.random() < 0.5))
         elif r < 0.93:
             ops.append(('run-inputs', gen_actions(rng), [rng.choice(INPUT_VALUES) for _ in range(rng.randint(0, 3))]))
         elif r < 0.97:
@@ -292,6 +300,17 @@ def check_history(ctx, h):
                 elif kind == 'queue_input':
                     m.set_input(tuple(op[1]), False)
                     sbx.queue_input(*op[1])
+                    queue_ops_between += 1
+                elif kind == 'set_input-own-queue':
+                    # the queue as read back is given back: nothing changes
+                    sbx.set_input(sbx.get_input())
+                    queue_ops_between += 1
+                elif kind == 'callable-then-queue':
+                    # a function supplied the inputs for a while (as allow_real_io() arranges); then a list is queued again
+                    sbx.set_input(lambda prompt='': 'from-a-function')
+                    m.set_input(None)
+                    m.set_input(op[1], True)
+                    sbx.set_input(op[1], clear=op[2])
                     queue_ops_between += 1
                 elif kind == 'clear_input':
                     m.set_input(None)
